@@ -309,6 +309,7 @@ func runC11(c *Ctx) {
 		r.Und("C11.lock", "instance-floor", "", fmt.Sprintf("only %d written fields decided (gated, orderedGated, composeFrom, Expiration, gatedEvent.events expected)", n))
 	}
 	c.gatedContainerRules("C11")
+	c.ruleGatedReset("C11.reset")
 	c.ruleGatedOrder()
 	c.ruleGatedNoGate("C11.nogate")
 	c.ruleGatedPass("C11.pass")
